@@ -74,6 +74,7 @@ def result_tuple(rg: Graph, r):
         "severity": one(SH.resultSeverity),
         "messages": sorted(one(SH.resultMessage), key=lambda t: wire.tkey(t)),
         "detail": [result_tuple(rg, d) for d in rg.objects(r, SH.detail)],
+        "source": one(SH.sourceConstraint),
         "types": one(RDF.type),
     }
 
